@@ -59,6 +59,17 @@ type ApplyStep struct {
 	TipAfter   *TipObs    `json:"tip_after"`
 }
 
+// RestartStep: a fresh Chain over the same database, Init + PrepareCache (what a process restart does); the following
+// deletes take their blocks from the cache PrepareCache filled.
+type RestartStep struct {
+	Op       string  `json:"op"`
+	Pre      []KV    `json:"pre"`
+	Post     []KV    `json:"post"`
+	Err      *string `json:"err"`
+	Panic    string  `json:"panic,omitempty"`
+	TipAfter *TipObs `json:"tip_after"`
+}
+
 type DeleteStep struct {
 	Op        string  `json:"op"`
 	Pre       []KV    `json:"pre"`
